@@ -690,10 +690,20 @@ func genFactsText(L *loader) (string, any, []string) {
 			if !ok || rs.Key == nil || rs.Value == nil {
 				return true
 			}
-			if !strings.HasSuffix(types.ExprString(rs.X), "."+mapField) || len(rs.Body.List) != 1 {
+			if !strings.HasSuffix(types.ExprString(rs.X), "."+mapField) || len(rs.Body.List) < 1 || len(rs.Body.List) > 2 {
 				return true
 			}
-			as, ok := rs.Body.List[0].(*ast.AssignStmt)
+			if len(rs.Body.List) == 2 {
+				// since fix 1ff03e4: a range guard `if k < 0 || k >= len(arr) { return <error> }` precedes the assignment
+				g, ok := rs.Body.List[0].(*ast.IfStmt)
+				if !ok || g.Else != nil || len(g.Body.List) != 1 {
+					return true
+				}
+				if _, isRet := g.Body.List[0].(*ast.ReturnStmt); !isRet {
+					return true
+				}
+			}
+			as, ok := rs.Body.List[len(rs.Body.List)-1].(*ast.AssignStmt)
 			if !ok || len(as.Lhs) != 1 || len(as.Rhs) != 1 {
 				return true
 			}
